@@ -151,7 +151,9 @@ def gen_srr(rng, max_vox=24000, force_valid=True):
 def srr_cfg_json(case):
     """the INPUTS of an SRRConfig: the constructor arguments (exact values of the floats) and, under "ops", the changes made
     to that object afterwards (see `cfg_op`); Lean's `SrrConfig.make` / setters compute the state from them"""
-    c = case.get("ctor", case)  # (a history keeps the constructor arguments apart from the current values)
+    c = case.get("ctor")  # (a C10 history keeps the constructor arguments apart from the current values;
+    if not isinstance(c, dict):  # in a C09 case "ctor" names the constructor used)
+        c = case
     return {"spotsize": rat(c["spotsize"]), "speed": rat(c["speed"]), "scantime": rat(c["scantime"]),
             "warmup": rat(c["warmup"]), "pairs": c["pairs"], "ops": list(case.get("ops", []))}
 
